@@ -53,14 +53,20 @@ def bind_args(func: FuncInfo, args: list, kwargs: dict, self_val=None, where=Non
                           % (func.qualname, len(params), len(args)))
     for p, a in zip(params, args):
         bound[p] = a
+    if func.vararg is not None:
+        bound[func.vararg] = TupV(list(args[len(params):]))
+    extra = {}
     for k, v in kwargs.items():
         if k in bound:
             raise RaiseSignal("TypeError", "%s() got multiple values for argument %r" % (func.qualname, k))
         if k not in func.params and k not in func.kwonly:
             if func.kwarg is None:
                 raise RaiseSignal("TypeError", "%s() got an unexpected keyword argument %r" % (func.qualname, k))
+            extra[k] = v
             continue
         bound[k] = v
+    if func.kwarg is not None:
+        bound[func.kwarg] = DictV(extra)
     defaulted = set()
     for p in params + func.kwonly:
         if p not in bound:
@@ -69,6 +75,62 @@ def bind_args(func: FuncInfo, args: list, kwargs: dict, self_val=None, where=Non
             else:
                 raise RaiseSignal("TypeError", "%s() missing required argument %r" % (func.qualname, p))
     return bound, defaulted
+
+
+_GEN_CACHE = {}
+
+
+def generator_body(func: FuncInfo):
+    """A generator function that is consumed completely produces the list of the values it yields, in order: its body is run
+    with every `yield v` statement read as `__gen__.append(v)` and the list handed back at the end (None for plain functions)."""
+    k = id(func.node)
+    if k in _GEN_CACHE:
+        return _GEN_CACHE[k]
+    own = []
+
+    def scan(n):
+        for c in ast.iter_child_nodes(n):
+            if isinstance(c, (ast.FunctionDef, ast.AsyncFunctionDef, ast.Lambda, ast.ClassDef)):
+                continue
+            if isinstance(c, (ast.Yield, ast.YieldFrom)):
+                own.append(c)
+            scan(c)
+    scan(func.node)
+    if not own:
+        _GEN_CACHE[k] = None
+        return None
+
+    class Tr(ast.NodeTransformer):
+        def visit_FunctionDef(self, n):
+            return n
+        visit_Lambda = visit_AsyncFunctionDef = visit_ClassDef = visit_FunctionDef
+
+        def visit_Expr(self, n):
+            if isinstance(n.value, ast.Yield):
+                val = n.value.value if n.value.value is not None else ast.Constant(value=None)
+                call = ast.Call(func=ast.Attribute(value=ast.Name(id="__gen__", ctx=ast.Load()), attr="append", ctx=ast.Load()),
+                                args=[val], keywords=[])
+                return ast.copy_location(ast.Expr(value=ast.copy_location(call, n)), n)
+            return n
+
+        def visit_Return(self, n):
+            return ast.copy_location(ast.Return(value=ast.Name(id="__gen__", ctx=ast.Load())), n)
+
+    import copy
+    body = [Tr().visit(copy.deepcopy(st)) for st in func.node.body]
+    for st in body:
+        for n in ast.walk(st):
+            if isinstance(n, (ast.Yield, ast.YieldFrom)):
+                _GEN_CACHE[k] = None   # a yield used as an expression / yield from: not modelled (the caller sees Unmodelled)
+                return None
+    first = func.node.body[0]
+    init = ast.copy_location(ast.Assign(targets=[ast.Name(id="__gen__", ctx=ast.Store())], value=ast.List(elts=[], ctx=ast.Load())), first)
+    ret = ast.copy_location(ast.Return(value=ast.Name(id="__gen__", ctx=ast.Load())), func.node.body[-1])
+    out = [init] + body + [ret]
+    for st in out:
+        ast.fix_missing_locations(st)
+    _GEN_CACHE[k] = out
+    return out
 
 
 class Interp:
@@ -88,7 +150,7 @@ class Interp:
         try:
             if self.ctx.depth > 40:
                 raise Unmodelled("call depth exceeded at %s" % func.qualname)
-            self.exec_block(func.node.body, frame)
+            self.exec_block(generator_body(func) or func.node.body, frame)
         except ReturnSignal as r:
             return r.value
         finally:
@@ -318,7 +380,9 @@ class Interp:
         self.exec_block(st.body, frame)
 
     def st_FunctionDef(self, st, frame):
-        frame.env[st.name] = FuncV("lambda", node=st, frame=frame)
+        fv = FuncV("lambda", node=st, frame=frame)
+        fv.defaults = [self.eval(d, frame) for d in st.args.defaults]   # default values are evaluated when the function is created
+        frame.env[st.name] = fv
 
     def st_Continue(self, st, frame):
         raise Unmodelled("continue at %s" % frame.loc(st))
@@ -335,7 +399,21 @@ class Interp:
     st_Nonlocal = st_Global
 
     def st_Delete(self, st, frame):
-        raise Unmodelled("del at %s" % frame.loc(st))
+        for t in st.targets:
+            if isinstance(t, ast.Subscript) and not isinstance(t.slice, ast.Slice):
+                # del xs[i] is xs.pop(i) with the value discarded
+                lst = self.force(self.eval(t.value, frame), frame, t)
+                if not isinstance(lst, ListV):
+                    raise Unmodelled("del of an element of %r at %s" % (lst, frame.loc(st)))
+                self.list_method("pop", lst, [self.eval(t.slice, frame)], {}, frame, t)
+            elif isinstance(t, ast.Name):
+                fr = frame
+                while fr is not None and t.id not in fr.env:
+                    fr = fr.parent
+                if fr is not None:
+                    del fr.env[t.id]
+            else:
+                raise Unmodelled("del at %s" % frame.loc(st))
 
     # ------------------------------------------------------------------
     # truth / decisions
@@ -347,7 +425,7 @@ class Interp:
             if v.b is not None:
                 return v.b
             if not fork:
-                return None
+                return self.ctx.decided(v.cond) if getattr(self.ctx, "dry", None) is None else None
             return self.ctx.decide(v.cond, frame.loc(node))
         if v is NONE or isinstance(v, NoneV):
             return False
